@@ -150,6 +150,9 @@ def gen_history(rng, maxlen=14):
     n = rng.randint(1, maxlen)
     ops = []
     present = []
+    # one history in five lives far from the clock origin: the timing rule is an exact comparison, also
+    # when the times are large and an arrival is late by one unit only
+    shift = (1 << rng.choice([17, 20, 24])) if rng.random() < 0.2 else 0
     for _ in range(n):
         k = rng.random()
         if k < 0.35 or not present:
@@ -157,7 +160,7 @@ def gen_history(rng, maxlen=14):
                 nm = rng.choice(present)          # duplicate
             else:
                 nm = rng.choice(NAMES[:4])
-            lo = rng.randint(0, 6)
+            lo = shift + rng.randint(0, 6)
             if rng.random() < 0.3:
                 hi = INF
             elif rng.random() < 0.12:
